@@ -130,8 +130,8 @@ impl Property for C17 {
     }
     fn cases(&self, tier: Tier) -> u32 {
         match tier {
-            Tier::Quick => 30_000,
-            Tier::Thorough => 500_000,
+            Tier::Quick => 600_000,
+            Tier::Thorough => 6_000_000,
         }
     }
     fn rule(&self) -> String {
